@@ -279,6 +279,29 @@ def oracle(ctx):
                 failures.append((i, "rejected with %s instead of ValueError" % r[4:], None))
             elif len(ctx.samples) < 12 and nt and ctx.hist.get("rejected_ValueError", 0) % 9973 == 1:
                 ctx.sample({"entry": entry, "sep": sep, "string": s, "impl": r})
+    # AMBIENT PROCESS STATE: what the ISO parser returns for a text must not depend on calendar.setfirstweekday() (process-wide
+    # state read elsewhere in dateutil): every text with a week designator and a slice of the others is parsed again under
+    # two non-default first weekdays; a different answer than under the default is a misreading (the default answer was
+    # checked against the specification above).
+    import calendar
+    saved_fwd = calendar.firstweekday()
+    try:
+        for k in (6, 2):
+            calendar.setfirstweekday(k)
+            for i, (item, r) in enumerate(zip(stream, impl)):
+                entry, sep, zero, kind, s, nt = item
+                if not ((("W" in s or "w" in s) and i % 3 == 0) or i % 41 == k):
+                    continue
+                r2 = ic.entry_impl(entry, s, sep, zero, kind)
+                ctx.count("ambient_firstweekday_cases")
+                if r2 != r:
+                    ctx.count("ambient_firstweekday_differs")
+                    ctx.violation("%s(%r) under calendar.setfirstweekday(%d) = %s but %s under the default: the answer depends on process state"
+                                  % (entry, s, k, r2, r),
+                                  {"entry": entry, "sep": sep, "zero_as_utc": zero, "kind": kind, "string": s, "impl": r2,
+                                   "spec": [r], "lax": [], "as_if_00": [], "firstweekday": k}, {"impl": r2, "default": r})
+    finally:
+        calendar.setfirstweekday(saved_fwd)
     # diagnostics for the failures (lax recognition, the `00`-hour reading) — used by the class matchers
     lax_reqs, alt_reqs = [], []
     for (i, what, vals) in failures:
@@ -315,6 +338,9 @@ def oracle(ctx):
 
 def replay(ctx, payload):
     c = payload["violation"]["case"]
+    if "firstweekday" in c:
+        import calendar
+        calendar.setfirstweekday(c["firstweekday"])
     r = ic.entry_impl(c["entry"], c["string"], c["sep"], c["zero_as_utc"], c["kind"])
     sp = ctx.driver([ic.entry_spec_line(c["entry"], c["string"].encode("utf-8"), c["sep"], c["zero_as_utc"], True)])[0]
     vals = ic.spec_values(sp)
